@@ -243,6 +243,10 @@ pub struct Checker
     strict: bool,
     /// system of the run that began last (change samples follow their RunBegin immediately)
     last_begun: Option<SysUid>,
+    /// parent of each pool entity (fixed hierarchy)
+    parent: Vec<Option<u8>>,
+    /// pool entities whose auto-despawn signal has been dropped: the next garbage collection despawns them
+    ent_doomed: HashSet<u8>,
     /// trace position of the last applied mutation of RA / RB
     last_res_mut: [Option<usize>; 2],
 }
@@ -298,6 +302,8 @@ impl Checker
             in_gc: false,
             strict: true,
             last_begun: None,
+            parent: Vec::new(),
+            ent_doomed: HashSet::new(),
             last_res_mut: [None, None],
         }
     }
@@ -368,6 +374,7 @@ impl Checker
     {
         if !self.ent_alive[e as usize] { return; }
         self.ent_alive[e as usize] = false;
+        self.ent_doomed.remove(&e);
         // components vanish: removal events
         for c in 0..2u8
         {
@@ -389,6 +396,23 @@ impl Checker
             }
         }
         if self.has_tracker.contains(&e) { self.dead_unpolled.push(e); }
+    }
+
+    /// `despawn_recursive`: the entity and every live descendant.
+    fn kill_entity_recursive(&mut self, e: u8)
+    {
+        let mut all = vec![e];
+        let mut i = 0;
+        while i < all.len()
+        {
+            let p = all[i];
+            for c in 0..self.ent_alive.len()
+            {
+                if self.ent_alive[c] && self.parent.get(c).copied().flatten() == Some(p) && !all.contains(&(c as u8)) { all.push(c as u8); }
+            }
+            i += 1;
+        }
+        for x in all { self.ent_doomed.remove(&x); self.kill_entity(x); }
     }
 
     fn record_removal(&mut self, e: u8, c: u8)
@@ -502,6 +526,12 @@ impl Checker
                     lost_by: HashSet::new(), fired_keys: 0, n_keys: 0, ready: pool.is_some(), baseline: None,
                 });
             }
+            Ev::Hierarchy(pairs) =>
+            {
+                let n = pairs.iter().map(|p| p.0.max(p.1) as usize + 1).max().unwrap_or(0).max(self.ent_alive.len());
+                self.parent = vec![None; n.max(8)];
+                for (c, p) in pairs { self.parent[*c as usize] = Some(*p); }
+            }
             Ev::TopBegin(_) | Ev::SettleBegin(_) => self.tree_begin(),
             Ev::TopEnd(_) | Ev::SettleEnd(_) => self.tree_end(),
             Ev::Op{ sender, idx, op, resolved, facts } => self.on_op(*sender, *idx, op, resolved, facts),
@@ -540,9 +570,17 @@ impl Checker
             Ev::Hook(h) => self.on_hook(h),
             Ev::Panic(msg) =>
             {
+                // The harness only uses non-panicking APIs on legal inputs, so a panic is the framework's. It is a
+                // C18 / C02 violation in itself; and since the program could not complete, none of the other
+                // properties can hold on this history either (the runs / reactions / releases they require never
+                // happen), so every tree check reports it.
                 self.stale_in_tree = false;
                 self.viol("C18", format!("panic: {msg}"));
                 self.viol("C02", format!("panic: {msg}"));
+                for p in ["C01", "C03", "C04", "C05", "C06", "C07", "C08", "C09", "C11", "C12", "C13", "C15"]
+                {
+                    self.viol(p, format!("the framework panicked, the program could not complete: {msg}"));
+                }
             }
         }
     }
@@ -757,6 +795,13 @@ impl Checker
                 expected = Some(regs_for(self, &|k| *k == Key::ResourceMutation(r)));
                 kind = Some(HookKind::Resource);
                 trigger_keys.push(Key::ResourceMutation(r));
+            }
+            (Op::AutoDespawn(e), _) =>
+            {
+                expected = Some(Vec::new());
+                let e = *e % n_ent;
+                if self.ent_alive[e as usize] { self.ent_doomed.insert(e); self.rep.classes.hit("C08:auto_despawn_of_pool_entity"); }
+                else { self.rep.classes.hit("C10:auto_despawn_signal_for_dead_entity"); }
             }
             (Op::Remove(..), _) | (Op::Despawn(..), _) | (Op::Gc, _) | (Op::Poll, _) | (Op::Probe(_), _) =>
             {
@@ -1210,7 +1255,18 @@ impl Checker
                     }
                     EntRef::Pool(e) =>
                     {
-                        if *existed { self.viol("C07", format!("pool entity {e} was garbage collected by the framework")); }
+                        let e = *e;
+                        if *existed
+                        {
+                            if self.ent_doomed.remove(&e)
+                            {
+                                // automatic despawn: recursive, and it is a despawn like any other for C08
+                                self.kill_entity_recursive(e);
+                                self.rep.classes.hit("C08:pool_entity_collected");
+                            }
+                            else { self.viol("C07", format!("pool entity {e} was garbage collected by the framework although no auto-despawn signal for it was dropped")); }
+                        }
+                        else { self.ent_doomed.remove(&e); }
                     }
                     EntRef::Other(_) => { self.internal("garbage collection of an unknown entity".into()); }
                 }
@@ -1218,6 +1274,14 @@ impl Checker
             Hook::GcEnd =>
             {
                 self.in_gc = false;
+                let mut late: Vec<u8> = self.ent_doomed.iter().copied().filter(|e| self.ent_alive[*e as usize]).collect();
+                late.sort();
+                for e in late
+                {
+                    self.ent_doomed.remove(&e);
+                    self.viol("C08", format!("pool entity {e} lost its last auto-despawn signal but the next garbage collection did not despawn it (its removal / despawn reactions are overdue)"));
+                    self.viol("C07", format!("pool entity {e} lost its last auto-despawn signal but the next garbage collection did not despawn it"));
+                }
                 let missed: Vec<(usize, SysUid)> = self.arcs.iter().enumerate()
                     .filter(|(_, a)| a.doomed && !a.collected).map(|(i, a)| (i, a.sys)).collect();
                 for (a, s) in missed
